@@ -134,7 +134,7 @@ func (demuxer *Demuxer) Close() error {
 	}
 
 	demuxer.closed = true
-	demuxer.recvQueue.Signal()
+	demuxer.recvQueue.Push(nil) // 在队列锁内唤醒，避免 closed 检查与 Pop 等待之间丢失信号
 	return nil
 }
 
